@@ -1,7 +1,7 @@
 #!/bin/bash
 # usage: seedall.sh  — runs every seed under /tmp/seed (or /verif/seeded) against its property, prints one line per seed
 DIR=${1:-/tmp/seed}
-for d in $(ls -d $DIR/C??-? 2>/dev/null); do
+for d in $(ls -d $DIR/C??-? $DIR/C??-x $DIR/C??-y 2>/dev/null | sort -u); do
   id=$(basename $d); p=${id%%-*}
   [ -f /tmp/baseline_bad_$p.json ] || /verif/scripts/basebad.sh $p >/dev/null 2>&1
   out=$(/verif/scripts/seedcheck.sh $d $p 2>&1)
